@@ -245,6 +245,8 @@ struct Rig {
     lean: bool,
 }
 
+thread_local! { static C15_LEGACY: std::cell::Cell<bool> = std::cell::Cell::new(false); }
+
 fn dev<R>(f: impl FnOnce(&mut ConDev) -> R) -> R { DEV.with(|d| f(d.borrow_mut().as_mut().unwrap())) }
 
 impl Rig {
@@ -255,6 +257,9 @@ impl Rig {
         CURQ.with(|c| *c.borrow_mut() = QAddr::default());
         virtio_drivers::verif::set_observer(Some(observer));
         let mut ts = TState::new(DeviceType::Console, feats, 2, 2);
+        // a transport that requires the legacy (pre-1.0) queue layout: one region, used ring on the next page boundary
+        ts.legacy = C15_LEGACY.with(|l| l.get());
+        if ts.legacy { ctx.tr.note("legacy_layout"); }
         ts.config = { let mut c = vec![0u8; cfg_len]; for (i, b) in ctx.rng.bytes(cfg_len.min(8)).iter().enumerate() { c[i] = *b; } c };
         let (t, st) = ModelTransport::new(ts);
         hal::take_log();
@@ -785,6 +790,10 @@ pub fn run(ctx: &mut Ctx) {
     let all: u64 = (1 << 28) | (1 << 29) | (1 << 32) | 7;
     let featsets = [0u64, 1 << 29, 1 << 28, all, u64::MAX, 5];
     for (i, f) in featsets.iter().enumerate() { ctx.tr.scenario(&format!("c15-directed-f{}", i)); directed(ctx, *f); }
+    C15_LEGACY.with(|l| l.set(true));
+    for (i, f) in featsets.iter().enumerate() { ctx.tr.scenario(&format!("c15-legacy-directed-f{}", i)); directed(ctx, *f); }
+    for (i, f) in featsets.iter().enumerate().take(2) { ctx.tr.scenario(&format!("c15-legacy-suppress-f{}", i)); directed_suppressed(ctx, *f, 0); }
+    C15_LEGACY.with(|l| l.set(false));
     for (i, f) in featsets.iter().enumerate() { for mode in 0..4 { ctx.tr.scenario(&format!("c15-suppress-f{}-m{}", i, mode)); directed_suppressed(ctx, *f, mode); } }
     let nh = ctx.budget(36, 12);
     for h in 0..nh {
